@@ -5,11 +5,11 @@ V = pathlib.Path(__file__).resolve().parent.parent
 TB = "CPython 3.12, SymPy 1.14 (auto-evaluation, diff, subs, integrate, solve), z3 5.1 / cvc5 1.4, sympy.polys normal forms"
 CHECKS = {
  "C10": dict(cat="proof", eng="symx", ref="DESIGN.md 5/C10",
-   text="Contract clauses (the listed algebraic laws and refusals) on the real arithmetics.py functions, executed on fully generic real symbols and discharged as polynomial/algebraic identities for ALL component values by nf/z3; operand lengths 0..3 and coordinate-system combinations enumerated completely (the property's own bounds).",
+   text="Contract clauses (the listed algebraic laws and refusals) on the real arithmetics.py functions, executed on fully generic real symbols and discharged as polynomial/algebraic identities for ALL component values by nf/z3; operand lengths 0..3 and coordinate-system combinations enumerated completely (the property's own bounds). The for-all-values domain is the reals; non-real components are covered by ground instances with complex numbers only. Every shape runs under a wall-clock limit (a shape that does not finish is undecided).",
    note="Trusted: " + TB + "; control flow of the functions does not depend on component values (no Relational is coerced to bool).",
    tech="contract clauses over generic-execution summaries of the real functions, nf normal form + z3 NRA"),
  "C12": dict(cat="proof", eng="symx", ref="DESIGN.md 5/C12",
-   text="curl grad = 0, div curl = 0, zero-padding, Cartesian definitions, and curvilinear = Cartesian-in-local-frame, as postconditions of the real gradient/divergence/curl operators on undefined smooth functions of the coordinates; identities of rational functions modulo sin^2+cos^2=1 proved for all fields and all points of the domain.",
+   text="curl grad = 0, div curl = 0, zero-padding, Cartesian definitions, and curvilinear = Cartesian-in-local-frame, as postconditions of the real gradient/divergence/curl operators on undefined smooth functions of the coordinates; identities of rational functions modulo sin^2+cos^2=1 proved for all fields and all points of the domain; also for fields whose components depend on subsets of the coordinates or vanish.",
    note="Trusted: " + TB + "; SymPy chain rule; local frames of the cylindrical/spherical systems written in the check from the definitions.",
    tech="generic execution on undefined functions + normal form modulo trigonometric relations"),
  "C14": dict(cat="proof", eng="symx", ref="DESIGN.md 5/C14",
@@ -17,7 +17,7 @@ CHECKS = {
    note="Trusted: " + TB + "; the R^3 semantics in vf/vecsem.py. Unbounded term counts / nesting are out of reach (reported).",
    tech="constructor postconditions against an R^3 semantics on most-general templates, nf + z3"),
  "C15": dict(cat="proof", eng="symx", ref="DESIGN.md 5/C15",
-   text="Round trips, rotation/inverse/composition of base-vector maps, agreement with the Cartesian position map and local frames, point/vector conversion, Lame coefficients: postconditions of the real conversion tables for all 6 ordered pairs and 6 triples, for all points of each domain, discharged by z3 NRA with an instantiated inverse-trig axiom kit.",
+   text="Round trips, rotation/inverse/composition of base-vector maps, agreement with the Cartesian position map and local frames, point/vector conversion, Lame coefficients: postconditions of the real conversion tables for all 6 ordered pairs and 6 triples, for all points of each (open) domain, discharged by z3 NRA with an instantiated inverse-trig axiom kit; z-axis points between the two curvilinear systems as ground instances.",
    note="Trusted: " + TB + "; assumed axioms A1-A4 of vf/axioms.py (atan2/acos characterisation, injectivity of angle->(sin,cos), sign of sin on (0,pi)).",
    tech="generic execution + z3 nonlinear real arithmetic with instantiated atan2 axioms"),
 }
